@@ -24,21 +24,32 @@ BuildOnly == {"build"}
 
 \* Replay generation: environment steps only after a generated state exists, no forced runs,
 \* events present, no visualisation (those dimensions have their own configs)
+NoTrailingEnv == (gen = MaxRuns /\ run.pc = "idle" /\ hist # <<>>) => hist[Len(hist)][1] = "end"
 ReplayConstraint ==
+    /\ NoTrailingEnv
     /\ nenv <= gen
-    /\ (run.pc # "idle" => ~run.forced)
-    /\ hasEvents = (hist = <<>> \/ TRUE)
+    /\ (run.pc # "idle" => ~run.wantForced)
 ReplayInit == Init /\ hasEvents = TRUE /\ viz = FALSE
 ReplaySpec == ReplayInit /\ [][Next]_vars
 
 \* C17: fault plans.  A first run or a run after an output-changing edit is hit by exactly one
 \* fault; recovery runs follow.
 FaultConstraint ==
+    /\ NoTrailingEnv
     /\ nenv <= gen
-    /\ (run.pc # "idle" => ~run.forced)
+    /\ (run.pc # "idle" => ~run.wantForced)
 FaultInit == Init /\ hasEvents = TRUE
 FaultSpec == FaultInit /\ [][Next]_vars
 
+\* C14 force histories: an unforced generation, one cache-state manipulation, then a run with
+\* every combination of --force flag and configured force
+ForceConstraint ==
+    /\ NoTrailingEnv
+    /\ nenv <= gen
+    /\ (gen = 1 /\ run.pc # "idle" => ~run.wantForced)
+ForceClasses == {"param_type"}
+FaultClasses == {"field_added"}
+
 \* print every maximal history once (always-true invariant) for replay into the real tool
-EmitHist == Done => PrintT(<<"REPLAY", ToJson([h |-> hist, ev |-> hasEvents, viz |-> viz])>>)
+EmitHist == (Done /\ NoTrailingEnv) => PrintT(<<"REPLAY", ToJson([h |-> hist, ev |-> hasEvents, viz |-> viz])>>)
 =============================================================================
